@@ -61,7 +61,8 @@ def run_unit(name, canary=False, timeout=600):
     res["unit_functions"] = [{"name": n, "file": f, "contract": c, "external_body": e} for n, f, c, e in functions]
     res["property"] = unit.get("property", [])
     _verify_text(res, rs, text, linemap, out_dir, timeout)
-    _ablate_stale_hints(res, rs, text, linemap, out_dir, timeout)
+    if not canary:      # (the vacuity canary IS a failing assert at the head of each body: it must stay)
+        _ablate_stale_hints(res, rs, text, linemap, out_dir, timeout)
     return res
 
 
